@@ -213,7 +213,9 @@ class Case:
                     over += [a.c.t] if isinstance(a.c, SB) else []
                 else:
                     over += [neq(a.cos(), b.cos())] if is_ang else [neq(a, b)]
-            obs.append(solve.twin(f"{self.name}/p{npaths}/twin", extra=pc, over=over, timeout=self.timeout))
+            tw = solve.twin(f"{self.name}/p{npaths}/twin", extra=pc, over=over, timeout=self.timeout)
+            tw["pins"] = self._pins()          # a path condition found satisfiable under a partial concretisation is satisfiable
+            obs.append(tw)
         return obs, {"paths": npaths, "log": CTX.log[-20:], "unwinding_bound_hits": core.BOUND_HITS[0]}
 
     def _pins(self):
